@@ -41,6 +41,14 @@ theorem C06_atomic (w : World) (op : Op) (k : String) (hw : WF w)
   case io g kd m => exact ioMut_atomic _ _ _ _ _ h
   case init g m => exact initMut_atomic _ hw _ _ _ h
   case newNode => exact guardOp_atomic_of_late _ _ _ _ _ hl h
+  case newNodeAttrs =>
+    rw [withAttrs_late] at hl
+    exact withAttrs_atomic _ _ _ _ _ _ _ hl h
+  case sort g =>
+    unfold graphSort at h hl ⊢
+    split
+    · rfl
+    · rename_i r hr; simp only [hr] at h hl; exact guardOp_atomic_of_late _ _ _ _ _ hl h
   case newGraph => exact guardOp_atomic_of_late _ _ _ _ _ hl h
   case rauw => exact guardOp_atomic_of_late _ _ _ _ _ hl h
   case setName => exact guardOp_atomic_of_late _ _ _ _ _ hl h
@@ -134,6 +142,19 @@ example : (step exW (.insertBefore 0 0 [1])).2 = .raised "ValueError" := by deci
 example : (step exW (.remove 0 [1] false)).2 = .raised "ValueError" := by decide
 example : (step exW (.remove 0 [0] true)).2 = .raised "ValueError" := by decide
 example : (step exW .sortCycle).2 = .raised "ValueError" := by decide
+/-- a dependency cycle `n0 <-> n1` in one graph: the real sort (C12's model on the tree read off the world) raises -/
+def exCyc : World := run
+  [ .newValue none,
+    .newNode "A" (some "n0") [none] none none none,
+    .newNode "B" (some "n1") [some 1] none none none,
+    .replaceInput 0 0 (some 2),
+    .newGraph [] [] [0, 1] [] ]
+example : (step exCyc (.sort 0)).2 = .raised "ValueError" := by decide
+example : (step exW (.attrDel 0 "k" true)).2 = .raised "KeyError" := by decide
+example : (step exW (.io 0 .inp (.sort [] false))).2 = .ok := by decide
+/-- `Tape.initializer` is a composite and NOT claimed atomic: the new value exists although the graph refused it -/
+example : (tapeInitializer exW (some 0) (some "w") none false).2 = .raised "ValueError" ∧
+    (tapeInitializer exW (some 0) (some "w") none false).1 ≠ exW := by decide
 example : (renameValues exW [3, 4] ["a", "a", "b"]).2 = .raised "ValueError" := by decide
 example : (renameValues exW [3, 3] ["a", "b"]).2 = .raised "ValueError" := by decide
 example : (renameValues exW [4, 3] ["q", ""]).2 = .raised "ValueError|AttributeError" := by decide
